@@ -346,6 +346,22 @@ func runUnguardedRules(p *Program, id string) ([]*Gen, []string) {
 							}
 						}
 					}
+					// required map operand of a lookup
+					if mp := kv["mappath"]; mp != "" {
+						if lk, isLk := in.(*ssa.Lookup); isLk {
+							got := valuePath(lk.X)
+							okAny := false
+							for _, alt := range splitList(mp, "|") {
+								if pathMatches(got, alt) {
+									okAny = true
+								}
+							}
+							if !okAny {
+								o.Pre = "sat"
+								o.Model = "the map read is " + got + ", expected one of " + mp
+							}
+						}
+					}
 					// required argument provenance
 					for _, ap := range splitList(kv["argpath"], "|") {
 						parts := strings.SplitN(ap, ":", 2)
